@@ -2540,10 +2540,15 @@ rfbProcessClientNormalMessage(rfbClientPtr cl)
                                "%s\n", cl->host);
                         cl->enableExtendedClipboard = TRUE;
                     }
-                    /* send the capabilities we support, currently only text */
+                    /* send the capabilities we support, currently only text; under sendMutex like
+                       every message that is not sent by the output thread: it must not land in
+                       the middle of a framebuffer update */
+                    LOCK(cl->sendMutex);
                     if (!rfbSendExtendedClipboardCapability(cl)) {
+                        UNLOCK(cl->sendMutex);
                         return;
                     }
+                    UNLOCK(cl->sendMutex);
                 }
                 break;
 #endif
@@ -3007,21 +3012,29 @@ rfbProcessClientNormalMessage(rfbClientPtr cl)
             free(str);
             return;
         } else if (extClipboardFlags & rfbExtendedClipboard_Request) {
+            /* sendMutex: the answer must not land inside an update the output thread is sending, and
+               rfbSendServerCutTextUTF8() replaces extClipboardData under the same mutex */
+            LOCK(cl->sendMutex);
             if ((cl->extClipboardUserCap & rfbExtendedClipboard_Provide) &&
                 cl->extClipboardData != NULL && cl->extClipboardDataSize > 0) {
                 if (!rfbSendExtendedServerCutTextData(cl, cl->extClipboardData, cl->extClipboardDataSize)) {
+                    UNLOCK(cl->sendMutex);
                     free(str);
                     return;
                 }
             }
+            UNLOCK(cl->sendMutex);
         } else if (extClipboardFlags & rfbExtendedClipboard_Peek) {
+            LOCK(cl->sendMutex);
             if ((cl->extClipboardUserCap & rfbExtendedClipboard_Notify) &&
                 cl->extClipboardData != NULL && cl->extClipboardDataSize > 0) {
                 if (!rfbSendExtendedClipboardNotify(cl)) {
+                    UNLOCK(cl->sendMutex);
                     free(str);
                     return;
                 }
             }
+            UNLOCK(cl->sendMutex);
         } else if (extClipboardFlags & rfbExtendedClipboard_Provide) {
             if (!rfbProcessExtendedServerCutTextData(cl, extClipboardFlags, str + 4, msg.cct.length - 4)) {
                 free(str);
